@@ -152,6 +152,22 @@ theorem format_caret (linestr : Bytes) (line column : Nat) :
       = 4 + ((Bytes.ofString (toString line)).length + (0 + 1 + 1 + 1)) + column := by omega
   rw [e]
 
+/-- **YAML (fix faf5fb2): the character index go-yaml reports is converted to the byte offset of
+    that character.** On a text made of complete runes `cs`, `yamlParseError.Error` for character
+    index `i` resolves the position of the first byte of rune number `i` (the end of the text when
+    there are fewer runes); an error without an index yields no position at all. -/
+theorem yaml_char_index (w : Nat → Nat) (cs : List Bytes) (h : ∀ c, c ∈ cs → RuneChunk c) (i : Nat) :
+    yamlReport w cs.flatten (i : Int) =
+      (let r := getLineByOffset w cs.flatten (((cs.take i).flatten.length : Nat) + 1)
+       some { multi := true, line := r.2.1, linestr := r.1, column := r.2.2 }) ∧
+    yamlReport w cs.flatten (-1) = none := by
+  constructor
+  · simp only [yamlReport]
+    rw [if_neg (by omega)]
+    simp only [Int.toNat_natCast]
+    rw [charToByte_flatten cs h _ _ _ (Nat.le_refl _), Nat.zero_add]
+  · rfl
+
 /-! ## 2. The window over non-seekable input (`jsonInputIter.Next`, as fixed) -/
 
 /-- **Window invariant.** For every input, every threshold and every event sequence a decoder can
